@@ -19,8 +19,8 @@ func ruleC19(prog *Program, rep *Report) {
 	info := pk.TypesInfo
 	ruleCallOrder(prog, rep, 2, "alt")
 	ruleChildVariadic(prog, rep, 2, "alt") // ignore paths are relative to the value they are given with
-	ruleTimeEq(prog, rep, "alt") // Diff and Match treat two times as equal when Equal() says so (after rounding)
-	ruleNumFamily(prog, rep, 4, "alt") // Diff, Match and the widening helpers treat every integer width alike
+	ruleTimeEq(prog, rep, "alt")           // Diff and Match treat two times as equal when Equal() says so (after rounding)
+	ruleNumFamily(prog, rep, 4, "alt")     // Diff, Match and the widening helpers treat every integer width alike
 	// the shared implementation: the unexported function both Diff and Compare call
 	var impl *types.Func
 	calls := map[string]*types.Func{}
